@@ -85,4 +85,12 @@ DefaultStruct(s) ==
   IF ~HasInit(s) THEN ZeroStruct(s)
   ELSE [f |-> MatF([key \in DOMAIN ByKey[s] |-> ByKey[s][key].def]),
         unk |-> <<>>]
+
+\* the default initialiser run on an existing value (what generated code does): it assigns the fields
+\* that declare a non-zero default and leaves everything else alone.  On a zero value: DefaultStruct.
+InitOn(s, prior) ==
+  IF ~HasInit(s) THEN prior
+  ELSE LET d == DefaultStruct(s)
+           z == ZeroStruct(s) IN
+       [prior EXCEPT !.f = MatF([key \in DOMAIN ByKey[s] |-> IF d.f[key] = z.f[key] THEN prior.f[key] ELSE d.f[key]])]
 =============================================================================
